@@ -60,7 +60,7 @@ theorem tex2txt_inRange (hw : T.WFInv) (fuel : Nat) (latex : Str) (o : Options) 
     refine ⟨?_, ?_, ?_⟩
     · cases o.unkn <;> cases o.hasRepl <;> simp [hl, hrp.1]
     · intro hf hu
-      have hr := getTxtPos_range latex.length toks (hp hf)
+      have hr := getTxtPos_range latex.length toks (hp.1 hf)
       simp only [hu, Bool.false_eq_true, if_false]
       cases o.hasRepl with
       | false => exact partOk_shift _ _ _ hl hr
@@ -77,7 +77,7 @@ theorem tex2txt_inRange (hw : T.WFInv) (fuel : Nat) (latex : Str) (o : Options) 
       refine ⟨rfl, fun _ _ => ⟨rfl, fun p hp => by cases hp⟩, ?_⟩
       intro hf tp htp
       have hparts := getTxtPosML_parts toks o.lang thresh _ lc' parts hml
-      have hr := getTxtPos_range latex.length _ (filter_inRange latex.length toks (hp hf))
+      have hr := getTxtPos_range latex.length _ (filter_inRange latex.length toks (hp.1 hf))
       simp only [allParts, List.map_map, List.mem_flatten, List.mem_map, Function.comp] at htp
       obtain ⟨l, ⟨e, he, rfl⟩, hl⟩ := htp
       simp only [List.mem_map] at hl
@@ -94,5 +94,56 @@ theorem tex2txt_inRange (hw : T.WFInv) (fuel : Nat) (latex : Str) (o : Options) 
           simp only [allParts, List.mem_flatten, List.mem_map]
           exact ⟨e.2, ⟨e, he, rfl⟩, htp0⟩)
         exact partOk_shift _ _ _ h1.1 (fun p h => hr p (h1.2 p h))
+
+/-- the `lang_change` table handed to the splitter is well formed: one entry per language,
+    non-empty, 'en' present -/
+theorem langChangeOk_of_G0 (hw : T.WFInv) (nroot : Nat) (st : PState) (h : G0 T nroot st) :
+    LangChangeOk (st.rots.map (fun r => (r.code, r.chg))) := by
+  refine ⟨?_, ?_⟩
+  · intro e he
+    simp only [List.mem_map] at he
+    obtain ⟨r, hr, rfl⟩ := he
+    exact (h.rots.2 r hr).2.2
+  · have hen := hw.lang_en
+    unfold settingsOf at hen
+    rw [List.find?_isSome] at hen
+    obtain ⟨ls, hls, hc⟩ := hen
+    have h1 := h.rots.1 ls hls
+    unfold rotOf at h1
+    rw [List.find?_isSome] at h1
+    obtain ⟨r, hr, hrc⟩ := h1
+    simp only [List.map_map, List.mem_map, Function.comp]
+    refine ⟨r, hr, ?_⟩
+    have e1 : r.code = ls.code := by simpa using hrc
+    have e2 : ls.code = "en".toList := by simpa using hc
+    rw [e1, e2]
+
+/-- C07 on the model: whatever the source, options, files and fuel, the filter model never ends
+    in a Python exception outside the listed sites (`allowedCrash`: code that is not modelled, and
+    the sites whose unreachability is not proved). -/
+theorem tex2txt_crashSites (hw : T.WFInv) (fuel : Nat) (latex : Str) (o : Options) (multi : Bool)
+    (thresh : Nat) (fs : FS) (site : String)
+    (h : tex2txt T fuel latex o multi thresh fs = .crash site) : site ∈ allowedCrash := by
+  have hp := parse_inRange T hw fuel latex o multi fs
+    (if o.extr.isEmpty then [] else (splitOn ',' o.extr []).map (fun s => '\\' :: s))
+  unfold tex2txt at h
+  dsimp only at h
+  revert hp h
+  generalize ((initParser T fuel o >>= fun _ => parse T fuel latex o.defs
+    (if o.extr.isEmpty then [] else (splitOn ',' o.extr []).map (fun s => '\\' :: s)))
+      (initialState T o multi fs)) = out
+  intro h hp
+  rcases out with ⟨toks, st⟩ | m | c | _
+  case fatal => cases h
+  case crash => cases h; exact hp
+  case outOfFuel => cases h
+  cases multi with
+  | false => simp at h
+  | true =>
+    simp only [Bool.not_true, Bool.false_eq_true, if_false] at h
+    have htot := getTxtPosML_total toks o.lang thresh _ (langChangeOk_of_G0 T hw _ st hp.2)
+    split at h
+    · rename_i hnone; rw [hnone] at htot; cases htot
+    · simp at h
 
 end Yalafi
